@@ -22,6 +22,13 @@ pub struct Form {
     #[serde(with = "crate::engine::hexbytes")]
     pub file: Vec<u8>,
     pub fields_after_file: Vec<(String, String)>,
+    /// what precedes the first delimiter: nothing, or the CRLF that RFC 2046 allows there
+    #[serde(default)]
+    pub preamble: String,
+    /// how the part headers of field i are written: 0 Content-Disposition only; 1 Content-Type, then
+    /// Content-Disposition; 2 Content-Disposition, then Content-Type (fields beyond the list: 0)
+    #[serde(default)]
+    pub field_styles: Vec<u8>,
 }
 
 impl Form {
@@ -35,9 +42,16 @@ impl Form {
         }
     }
     pub fn encode(&self) -> Vec<u8> {
-        let mut b = Vec::new();
-        for (n, v) in &self.fields {
-            b.extend_from_slice(format!("--{}\r\nContent-Disposition: form-data; name=\"{n}\"\r\n\r\n", self.boundary).as_bytes());
+        let mut b = self.preamble.clone().into_bytes();
+        for (i, (n, v)) in self.fields.iter().enumerate() {
+            let cd = format!("Content-Disposition: form-data; name=\"{n}\"\r\n");
+            let ct = "Content-Type: text/plain; charset=utf-8\r\n";
+            let headers = match self.field_styles.get(i).copied().unwrap_or(0) {
+                1 => format!("{ct}{cd}"),
+                2 => format!("{cd}{ct}"),
+                _ => cd,
+            };
+            b.extend_from_slice(format!("--{}\r\n{headers}\r\n", self.boundary).as_bytes());
             b.extend_from_slice(v.as_bytes());
             b.extend_from_slice(b"\r\n");
         }
@@ -464,6 +478,8 @@ fn gen_form_with(g: &mut Rng, secrets: &HashMap<String, String>, forced_ak: Opti
         file_content_type: (*g.pick(&["application/octet-stream", "text/plain"])).to_owned(),
         file,
         fields_after_file: if g.chance(1, 3) { vec![("submit".into(), "Upload to S3".into())] } else { Vec::new() },
+        preamble: if g.chance(1, 3) { "\r\n".to_owned() } else { String::new() },
+        field_styles: if g.chance(1, 2) { (0..24).map(|_| if g.chance(1, 3) { 1 + g.below(2) as u8 } else { 0 }).collect() } else { Vec::new() },
     };
     form.fields.push((nm("x-amz-algorithm"), "AWS4-HMAC-SHA256".into()));
     form.fields.push((nm("x-amz-credential"), cred));
